@@ -40,10 +40,11 @@ def oniom_case(ctx, rng, force=None):
     from tangelo.problem_decomposition.oniom.oniom_problem_decomposition import ONIOMProblemDecomposition
     from tangelo.problem_decomposition.oniom._helpers.helper_classes import Fragment, Link
     kind = force[0] if force else rng.choice(["same_levels", "same_levels", "whole_model", "whole_model_list"])
-    if rng.random() < 0.3 and not force:
+    lih = force is not None and len(force) > 2        # force = (kind, basis, frozen, x_or_high): the LiH + H2 system with frozen orbitals
+    if lih or (rng.random() < 0.3 and not force):
         geom = [("Li", (0.0, 0.0, 0.0)), ("H", (0.0, 0.0, round(rng.uniform(1.5, 1.7), 3))), ("H", (0.0, 3.0, 0.3)), ("H", (0.0, 3.0, round(rng.uniform(1.0, 1.1), 3)))]
-        model_atoms = rng.choice([[0, 1], [1, 0], [2, 3], 2])
-        frozen = rng.choice([None, [0], [0, 5]]) if model_atoms in ([0, 1], [1, 0], 2) else None
+        model_atoms = rng.choice([[0, 1], [1, 0], 2]) if lih else rng.choice([[0, 1], [1, 0], [2, 3], 2])
+        frozen = force[2] if lih else (rng.choice([None, [0], [0, 5]]) if model_atoms in ([0, 1], [1, 0], 2) else None)
     else:
         n = 4 if force else rng.choice([4, 4, 6])
         geom = chain(rng, n)
@@ -56,13 +57,13 @@ def oniom_case(ctx, rng, force=None):
             model_atoms = k
         frozen = None
     low = rng.choice(["HF", "CCSD"])
-    high = rng.choice(["CCSD", "FCI"])
+    high = force[3] if lih else rng.choice(["CCSD", "FCI"])
     # a non-default basis for the 4-atom hydrogen chains, and - in 40% of the cases - ONE options dictionary object handed
     # to every slot that takes the same options (the caller's dictionary belongs to the caller)
     basis = rng.choice(["sto-3g", "3-21g"]) if (geom[0][0] == "H" and len(geom) == 4) else "sto-3g"
     shared = rng.random() < 0.4
     if force:
-        basis, shared = force[1], True
+        basis, shared = force[1], not lih
     case = {"kind": "oniom", "sub": kind, "geom": [[a, list(p)] for a, p in geom], "model": model_atoms, "low": low, "high": high, "frozen": frozen,
             "basis": basis, "shared_options": shared}
     ctx.case(case, nontrivial=True, sample=len(geom) == 4)
@@ -76,7 +77,7 @@ def oniom_case(ctx, rng, force=None):
     with warnings.catch_warnings():
         warnings.simplefilter("ignore")
         if kind == "same_levels":
-            x = rng.choice(["HF", "CCSD", "FCI"])
+            x = force[3] if lih else rng.choice(["HF", "CCSD", "FCI"])
             links = None
             # a link is needed when a bond is cut in a chain: cap with H at a random fraction (cancels anyway)
             idx = list(range(model_atoms)) if isinstance(model_atoms, int) else list(model_atoms)
@@ -225,15 +226,15 @@ def dmet_energy(geom, frags, solver, basis="sto-3g", loc="meta_lowdin", charge=0
     return float(e), float(np.real(resid)), mol
 
 
-def dmet_case(ctx, rng, kind):
+def dmet_case(ctx, rng, kind, state=None):
     try:
-        return _dmet_case(ctx, rng, kind)
+        return _dmet_case(ctx, rng, kind, state)
     except NotConverged:
         ctx.count("dmet:root-search-not-converged")
         return True
 
 
-def _dmet_case(ctx, rng, kind):
+def _dmet_case(ctx, rng, kind, state=None):
     from tangelo.algorithms.classical import FCISolver
     loc = rng.choice(["meta_lowdin", "iao", "nao"])
     if kind == "exact":
@@ -281,7 +282,7 @@ def _dmet_case(ctx, rng, kind):
     solver = rng.choice(["fci", "ccsd"])
     basis = "6-31g" if loc == "iao" else "sto-3g"
     # electronic state: closed shell, or an open-shell (UHF) state whose charge and spin must survive the re-ordering
-    charge, spin, uhf = rng.choice([(0, 0, False), (0, 0, False), (2, 2, True), (0, 2, True)])
+    charge, spin, uhf = state or rng.choice([(0, 0, False), (0, 0, False), (2, 2, True), (0, 2, True)])
     if uhf:
         solver = "ccsd"
         if loc == "iao":            # IAO localisation does not accept an unrestricted mean field
@@ -381,6 +382,9 @@ def run(ctx):
         ok &= oniom_case(ctx, rng)
     for kind in ("same_levels", "whole_model", "whole_model_list")[:ctx.n(2, 3)]:
         ok &= oniom_case(ctx, rng, force=(kind, "3-21g"))
+    # frozen orbitals at one level only / at both levels with a correlated solver, every run (LiH + H2)
+    for f in (("same_levels", "sto-3g", [0], "CCSD"), ("whole_model", "sto-3g", [0], "CCSD"), ("whole_model_list", "sto-3g", [0, 5], "CCSD")):
+        ok &= oniom_case(ctx, rng, force=f)
     for _ in range(ctx.n(2, 10)):
         ok &= oniom_two_capped_case(ctx, rng)
     for _ in range(ctx.n(150, 1500)):
@@ -391,6 +395,8 @@ def run(ctx):
         ok &= dmet_case(ctx, rng, "count")
     for _ in range(ctx.n(8, 50)):
         ok &= dmet_case(ctx, rng, "relabel")
+    for st in ((0, 2, True), (2, 2, True), (0, 2, True)):       # open-shell states, every run
+        ok &= dmet_case(ctx, rng, "relabel", state=st)
     for _ in range(ctx.n(100, 1000)):
         ok &= mi_case(ctx, rng)
     return ok
